@@ -65,9 +65,9 @@ Additions of the loop ties of C03 / C20 (marked `[loop ties C03]` / `[loop ties 
                an `if` of assignments none of which is read afterwards is refused (it used to end in an IndexError)
 
 Additions of the loop ties of C01 / C02, second batch (marked `[loop ties e1]`; additive, fail-closed):
-  statements : `T['col'] = T.apply(lambda row: E, axis=1)` read per row as `T['col'] = E` (cells are `row['c']`, declared as
-               parameters; the lambda takes exactly the row, its name is bound nowhere else in the function, E mentions
-               neither T nor binds names);
+  statements : `T['col'] = T.apply(lambda row: E, axis=1)` read per row as `T['col'] = E` with every cell `row['c']` read as
+               `T['c']` (the lambda takes exactly the row and reads it only as `row['<column>']`, E neither mentions T nor
+               binds names);
                `T = g(args)` where the spec declares function-typed parameters keyed `g['col']`: from there on `T['col']` is
                `g['col'] args` (the row's cell in that column of the table g returns); T must be assigned once
   expressions: `s.startswith(t)` on two strings (Base/Str.v str_prefix t s); `v if c else None` with v : B / OB (an OB)"""
@@ -1120,24 +1120,29 @@ class FnTranslator:
                     and len(s.value.args) == 1 and isinstance(s.value.args[0], ast.Lambda) \
                     and [(k.arg, ast.unparse(k.value)) for k in s.value.keywords] == [('axis', '1')]:
                 # [loop ties e1] T['col'] = T.apply(lambda row: E, axis=1): DataFrame.apply with axis=1 calls the function once
-                # per row of T with that row (its cells are `row['c']`, declared as parameters keyed `row['c']`) and the results
-                # form a Series on T's own index, which the column assignment places row by row -- per row it is T['col'] = E.
-                # Refused unless the lambda has exactly one plain parameter, whose name occurs nowhere else in the enclosing
-                # function (so `row[..]` can only mean the row handed over by apply), and E does not mention T itself.
+                # per row of T with that row and the results form a Series on T's own index, which the column assignment places
+                # row by row; inside E the cell `row['c']` is T['c'] of that row -- per row it is T['col'] = E[row['c'] := T['c']].
+                # Refused unless the lambda takes exactly the row, reads it only as `row['<column>']`, and E neither mentions T
+                # itself nor binds names.
+                import copy
                 lam, tname = s.value.args[0], s.targets[0].value.id
                 la = lam.args
                 if la.vararg or la.kwarg or la.kwonlyargs or la.posonlyargs or la.defaults or len(la.args) != 1:
                     raise Refuse('%s: %s.apply(lambda ..., axis=1) with a lambda that does not take exactly the row' % (self.rel, tname))
                 rname = la.args[0].arg
-                inside = sum(1 for x in ast.walk(lam) if (isinstance(x, ast.Name) and x.id == rname) or (isinstance(x, ast.arg) and x.arg == rname))
-                everywhere = sum(1 for x in ast.walk(self.cur_fnode) if (isinstance(x, ast.Name) and x.id == rname) or (isinstance(x, ast.arg) and x.arg == rname))
-                # (the lambda is part of the enclosing function, so everywhere >= inside there; `>` rather than `!=` only so that
-                #  tools/fn_selftest.py, which desugars without entering function(), is not refused on a stale cur_fnode)
-                if everywhere > inside or any(isinstance(x, ast.Name) and x.id == tname for x in ast.walk(lam.body)) \
+                if rname == tname or any(isinstance(x, ast.Name) and x.id == tname for x in ast.walk(lam.body)) \
                         or any(isinstance(x, (ast.Lambda, ast.NamedExpr, ast.ListComp, ast.GeneratorExp, ast.SetComp, ast.DictComp)) for x in ast.walk(lam.body)):
-                    raise Refuse('%s: %s.apply(lambda %s: ..., axis=1): %s is bound elsewhere, or the body mentions %s / binds names'
-                                 % (self.rel, tname, rname, rname, tname))
-                out.append(ast.Assign(targets=[s.targets[0]], value=lam.body))
+                    raise Refuse('%s: %s.apply(lambda %s: ..., axis=1): the body mentions %s / binds names' % (self.rel, tname, rname, tname))
+                class _Cells(ast.NodeTransformer):
+                    def visit_Subscript(self, n):
+                        if isinstance(n.value, ast.Name) and n.value.id == rname and isinstance(n.slice, ast.Constant) \
+                                and isinstance(n.slice.value, str) and isinstance(n.ctx, ast.Load):
+                            return ast.Subscript(value=ast.Name(id=tname, ctx=ast.Load()), slice=n.slice, ctx=ast.Load())
+                        return self.generic_visit(n)
+                body = _Cells().visit(copy.deepcopy(lam.body))
+                if any(isinstance(x, ast.Name) and x.id == rname for x in ast.walk(body)):
+                    raise Refuse("%s: %s.apply(lambda %s: ..., axis=1): the row is read other than as %s['<column>']" % (self.rel, tname, rname, rname))
+                out.append(ast.Assign(targets=[s.targets[0]], value=body))
                 continue
             if isinstance(s, ast.Assign) and len(s.targets) == 1 and isinstance(s.targets[0], ast.Name) \
                     and isinstance(s.value, ast.Call) and isinstance(s.value.func, ast.Attribute) and s.value.func.attr == 'assign' \
